@@ -205,9 +205,12 @@ func (x *Explorer) call(st *State, site ssa.CallInstruction, cc *ssa.CallCommon,
 	}
 	// --- sod function with a body
 	x.L.Event(x, st, &Event{Kind: EvCall, Instr: site, Callee: callee})
+	x.callLevel(st, site, cc, callee)
 	if obj, _ := callee.Object().(*types.Func); obj != nil {
 		var t tri
 		switch obj {
+		case a.IsFileAndExist:
+			t = x.Val.FileExists
 		case a.MustCache:
 			switch {
 			case x.Val.Cache == triYes || x.Val.Async == triYes:
@@ -368,6 +371,20 @@ func (x *Explorer) stepReturn(st *State, ret *ssa.Return) bool {
 			delete(st.facts, s)
 		}
 	}
+	for k := range st.lenpos {
+		if k.d >= d {
+			delete(st.lenpos, k)
+		}
+	}
+	if ok.Has(EOkUniq) && callee.Signature.Recv() != nil && len(site.Common().Args) > 0 && named(callee.Signature.Recv().Type()) == x.P.A.ObjIndex {
+		rt := x.tagsOf(st, site.Common().Args[0])
+		switch {
+		case rt&TLive != 0:
+			ok = ok.With(EOkUniqLive)
+		case rt&(TFresh|TDecoded) != 0:
+			ok = ok.With(EOkUniqTemp)
+		}
+	}
 	for i := range results {
 		if i < callee.Signature.Results().Len() && isErrorType(callee.Signature.Results().At(i).Type()) {
 			results[i].OkNil = results[i].OkNil.Union(ok)
@@ -381,7 +398,11 @@ func (x *Explorer) stepReturn(st *State, ret *ssa.Return) bool {
 		}
 	}
 	_ = hasErr
-	x.L.Event(x, st, &Event{Kind: EvCallRet, Instr: site, Callee: callee})
+	if x.C.Of(callee).Has(ECase) {
+		st.add(ECanon)
+		x.L.Event(x, st, &Event{Kind: EvEffect, Eff: ECanon, Instr: site, Callee: callee})
+	}
+	x.L.Event(x, st, &Event{Kind: EvCallRet, Instr: site, Callee: callee, Results: results})
 	if deferred {
 		return true // parent is still at its RunDefers
 	}
@@ -531,4 +552,61 @@ func (x *Explorer) external(st *State, site ssa.CallInstruction, cc *ssa.CallCom
 		}
 	}
 	x.defineResult(st, site, deferred, res...)
+}
+
+// callLevel adds the derived call-level effects (a call of a given family was made on a given
+// subject); they stand for data-dependent primitives guarded by presence tests in the callee.
+func (x *Explorer) callLevel(st *State, site ssa.CallInstruction, cc *ssa.CallCommon, callee *ssa.Function) {
+	if o := callee.Object(); o != nil && o.Pkg() == x.P.Types && o.Name() == "CloneObject" && callee.Signature.Recv() == nil {
+		st.add(EClone)
+		x.L.Event(x, st, &Event{Kind: EvEffect, Eff: EClone, Instr: site, Callee: callee})
+	}
+	cl := x.C.Of(callee)
+	if cl.Has(EJsonEncSchema) && cl.Has(EFsWSchema) {
+		st.add(ECallCommit)
+		x.L.Event(x, st, &Event{Kind: EvEffect, Eff: ECallCommit, Instr: site, Callee: callee})
+	}
+	if cl.Has(EGo) {
+		st.add(ECallStarter)
+		x.L.Event(x, st, &Event{Kind: EvEffect, Eff: ECallStarter, Instr: site, Callee: callee})
+	}
+	if cl.Has(EFsWObj) && !cl.Has(EIdxWLive) && !cl.Has(EDelPend) {
+		st.add(ECallWriteObj)
+		x.L.Event(x, st, &Event{Kind: EvEffect, Eff: ECallWriteObj, Instr: site, Callee: callee})
+	}
+	if callee.Signature.Recv() == nil || len(cc.Args) == 0 {
+		return
+	}
+	a := x.P.A
+	rt := x.tagsOf(st, cc.Args[0])
+	rn := named(callee.Signature.Recv().Type())
+	anyPut := cl.Has(EPutCache) || cl.Has(EPutPend) || cl.Has(EPutUnk)
+	anyDel := cl.Has(EDelCache) || cl.Has(EDelPend) || cl.Has(EDelUnk)
+	anyFsW := cl.Has(EFsWObj)
+	if (rn == a.ObjectStore || rn == a.ObjectMap) && anyDel && !anyPut {
+		if anyFsW {
+			if rt&TPend != 0 && rt&TCache == 0 {
+				st.add(ECallFlushPend)
+				x.L.Event(x, st, &Event{Kind: EvEffect, Eff: ECallFlushPend, Instr: site, Callee: callee, Tags: rt})
+			}
+		} else {
+			switch {
+			case rt&TCache != 0 && rt&TPend == 0:
+				st.add(ECallDelCache)
+				x.L.Event(x, st, &Event{Kind: EvEffect, Eff: ECallDelCache, Instr: site, Callee: callee, Tags: rt})
+			case rt&TPend != 0 && rt&TCache == 0:
+				st.add(ECallDelPend)
+				x.L.Event(x, st, &Event{Kind: EvEffect, Eff: ECallDelPend, Instr: site, Callee: callee, Tags: rt})
+			}
+		}
+	}
+	anyGet := cl.Has(EGetCache) || cl.Has(EGetPend) || cl.Has(EGetUnk)
+	if (rn == a.ObjectStore || rn == a.ObjectMap) && anyGet && !anyPut && !anyDel && rt&TCache != 0 && rt&TPend == 0 {
+		st.add(ECallGetCache)
+		x.L.Event(x, st, &Event{Kind: EvEffect, Eff: ECallGetCache, Instr: site, Callee: callee, Tags: rt})
+	}
+	if rn == a.ObjIndex && cl.Has(EIdxWLive) && !cl.Has(EErrUnique) && rt&TLive != 0 {
+		st.add(ECallUnindex)
+		x.L.Event(x, st, &Event{Kind: EvEffect, Eff: ECallUnindex, Instr: site, Callee: callee, Tags: rt})
+	}
 }
